@@ -11,6 +11,7 @@ import (
 	"kvassverif/core"
 	"kvassverif/sidecarsim"
 
+	"tkestack.io/kvass/pkg/prom"
 	"tkestack.io/kvass/pkg/shard"
 	"tkestack.io/kvass/pkg/target"
 )
@@ -260,6 +261,34 @@ func c12Bubble(tp *core.Tape, e *core.Env) (ops []string) {
 			} else if !bytes.Equal(x.w.body.Bytes(), x.want) {
 				e.Violate("bytes-differ", "first-diff=overlapping-gzip", "two gzip scrapes in flight at once: %s got %d bytes that are not its target's %d bytes", x.name, x.w.body.Len(), len(x.want))
 			}
+		}
+	}
+	// the administrative stop is lifted while a scrape is in flight: if Prometheus is handed a 200
+	// for it, that response must carry the target's body
+	if !e.Failed() && tp.Bool("stop_lifted_during_scrape", 1, 4) {
+		pl := Render(GenSamples(tp, 25), false, false, false)
+		if err := n.SC.PushExtra(&prom.ExtraConfig{StopScrapeReason: "stopped by admin"}); err != nil {
+			e.Undecided("push extra: %v", err)
+			return ops
+		}
+		n.Targets.Set(TargetHost(101), &sidecarsim.TargetSpec{Payload: pl, Gzip: tp.Bool("gzip", 1, 3)})
+		hold := n.Targets.HoldNext(TargetHost(101))
+		w := &shortWriter{hdr: http.Header{}}
+		var aborted bool
+		done := make(chan struct{})
+		go func() { defer close(done); aborted = n.SC.Scrape(w, ScrapeURLFor(101, "j0")) }()
+		synctest.Wait()
+		err := n.SC.PushExtra(&prom.ExtraConfig{})
+		close(hold)
+		<-done
+		if err != nil {
+			e.Undecided("push extra: %v", err)
+			return ops
+		}
+		e.Probe("stop_lifted_during_scrape")
+		e.Key("stop-lifted-in-flight", "assigned", "gzip=any", "writer")
+		if !aborted && (w.code == 0 || w.code == 200) && !bytes.Equal(w.body.Bytes(), pl) {
+			e.Violate("bytes-differ", "first-diff=stop-lifted-in-flight", "the stop reason was lifted while the scrape was in flight: Prometheus got status 200 with %d body bytes, the target served %d", w.body.Len(), len(pl))
 		}
 	}
 	e.AddSim(time.Since(start))
